@@ -26,7 +26,7 @@ static const char *s_opname(int k)
 enum { CF_NS, CF_JUNK, CF_RPOLICY, CF_BUDGET, CF_MAXLEN, CF_WIDE_PM };
 
 #define NS 3
-#define MAXS 700
+#define MAXS 70100
 
 typedef unsigned __int128 u128;
 
@@ -257,7 +257,9 @@ static void s_once(const plan_t *p)
             switch (o->kind) {
             case S_INSERT_CH: case S_APPEND_CH:
                 cnt = sym_cnt(o->a[4], o->a[5], size, pos, provoke == 2, &ctx);
-                if (provoke != 2 && cnt > 12) cnt = cnt % 13;
+                if (provoke != 2 && maxlen > 60000 && (o->a[5] & 1)) cnt = (size_t)((o->a[5] >> 1) % maxlen);
+                else if (provoke != 2 && cnt > 12) cnt = cnt % 13;
+                if (cnt > 65536 && cnt <= MAXS) PROBE("insert_above_2^16");
                 if (cnt > MAXS) huge = 1; else { for (j = 0; j < cnt; j++) src[j] = ch; srcn = cnt; }
                 break;
             case S_INSERT_STR_N: case S_APPEND_STR_N:
@@ -496,8 +498,9 @@ static void s_exec(const plan_t *p)
 
 static void s_gen(prng_t *r, int mode, plan_t *p)
 {
-    int longrun = mode != 16 && prng_chance(r, 1, 12), small = !longrun && prng_chance(r, 1, 5);
-    int nops = longrun ? 150 + (int)prng_below(r, 500) : small ? 2 + (int)prng_below(r, 7) : 8 + (int)prng_below(r, 42);
+    int huge = mode == 10 && prng_chance(r, 1, 300);
+    int longrun = !huge && mode != 16 && prng_chance(r, 1, 12), small = !longrun && !huge && prng_chance(r, 1, 5);
+    int nops = huge ? 6 + (int)prng_below(r, 10) : longrun ? 150 + (int)prng_below(r, 500) : small ? 2 + (int)prng_below(r, 7) : 8 + (int)prng_below(r, 42);
     int faults = mode == 10 && prng_chance(r, 3, 10);
     unsigned wide_pm = prng_chance(r, 1, 4) ? 0 : prng_chance(r, 1, 3) ? 1000 : 500;
     int i;
@@ -506,7 +509,8 @@ static void s_gen(prng_t *r, int mode, plan_t *p)
     p->cfg[CF_JUNK] = 1 + prng_below(r, 254);
     p->cfg[CF_RPOLICY] = prng_below(r, 3);
     p->cfg[CF_BUDGET] = (uint64_t)1 << (13 + prng_below(r, 7));
-    p->cfg[CF_MAXLEN] = longrun ? 100 + prng_below(r, 500) : small ? 4 + prng_below(r, 5) : 8 + prng_below(r, 40);
+    p->cfg[CF_MAXLEN] = huge ? 69000 : longrun ? 100 + prng_below(r, 500) : small ? 4 + prng_below(r, 5) : 8 + prng_below(r, 40);
+    if (huge) p->cfg[CF_BUDGET] = (uint64_t)1 << 23;
     p->cfg[CF_WIDE_PM] = wide_pm;
 
     for (i = 0; i < nops; i++) {
